@@ -143,7 +143,7 @@ def universe_worker(job):
                 else:
                     sym = "no-such-ref"
                 argv += ["--at-least", sym]
-            res = C.fork_map(_fk_child, [(root, argv)], nproc=1, timeout=120)[0]
+            res = C.fork_map(_fk_child, [(root, argv)], nproc=1, timeout=600)[0]
             if res is None or "_error" in res or "_timeout" in res:
                 out.append({"_error": str(res)[:500], "id": s["id"]})
                 continue
